@@ -12,12 +12,19 @@ mod dom_comp;
 mod dom_cosim;
 mod dom_pipeline;
 mod dom_store;
+mod dom_combloop;
 mod dom_pretty;
 mod vsets;
 mod dom_fragment;
 mod dom_order;
 mod dom_tokens;
 mod dom_migrate;
+mod dom_resolve;
+mod dom_paths;
+mod dom_value;
+mod dom_parse;
+mod dom_cdc;
+mod dom_assign;
 
 fn main() {
     let args: Vec<String> = std::env::args().skip(1).collect();
@@ -28,11 +35,14 @@ fn main() {
     let opts = util::Opts::parse(&args[1..]);
     let rc = match args[0].as_str() {
         "store" => dom_store::main(&opts),
+        "combloop" => dom_combloop::main(&opts),
         "pretty" => dom_pretty::main(&opts),
         "fragment" => dom_fragment::main(&opts),
         "order" => dom_order::main(&opts),
         "tokens" => dom_tokens::main(&opts),
         "migrate" => dom_migrate::main(&opts),
+        "resolve" => dom_resolve::main(&opts),
+        "paths" => dom_paths::main(&opts),
         "pipeline" => dom_pipeline::main(&opts),
         "svlv" => dom_svlv::main(&opts),
         "random" => dom_random::main(&opts),
@@ -40,6 +50,8 @@ fn main() {
         "vcd" => dom_vcd::main(&opts),
         "comp" => dom_comp::main(&opts),
         "cosim" => dom_cosim::main(&opts),
+        "cdc" => dom_cdc::main(&opts),
+        "assign" => dom_assign::main(&opts),
         "hash" => {
             // content hashes exactly as the incremental cache computes them
             for f in &opts.rest {
@@ -50,6 +62,8 @@ fn main() {
             }
             0
         }
+        "value" => dom_value::main(&opts),
+        "parse" => dom_parse::main(&opts),
         x => {
             eprintln!("hx: unknown domain {x}");
             2
